@@ -444,7 +444,8 @@ def staged(rng, base, sid, strategy, vm, debug=1):
     if rng.random() < 0.3:
         lines.append("PRED INV HISTMAX %d %d" % (rng.randrange(base["nprocs"]), rng.choice([1, 2])))
     crashed = set(l.split()[2] for l in base["cb"] if l.startswith("CB CRASH"))
-    if rng.random() < 0.25:
+    three = rng.random() < 0.3
+    if rng.random() < (0.6 if three else 0.25):
         # a crash in the stage-2 callback: the start states then differ only in what the crashed node had done
         nd = str(rng.randrange(base["nnodes"]))
         crashed.add(nd)
@@ -454,7 +455,22 @@ def staged(rng, base, sid, strategy, vm, debug=1):
         node = [l for l in base["sys"] if l.startswith("PROC %d " % p)][0].split()[2]
         if node not in crashed:     # a local message to a crashed node trips the documented assertion
             lines.append("CB LOCAL %s %d %s" % (node, p, gen_msg(rng)))
+    if three:
+        # a THIRD stage: stage 2 collects as well (its start states differ in what happened before its callback - e.g.
+        # in what a node had done before it was crashed there), stage 3 continues from those
+        lines = [l for l in lines if l != "PRED COLLECT NONE"]
+        lines.append(rng.choice(["PRED COLLECT DEPTHLE 1", "PRED COLLECT ALL", "PRED COLLECT ALL", "PRED COLLECT NOEVENTS",
+                                 "PRED COLLECT OUTBOXEQ %d 1" % rng.randrange(base["nprocs"])]))
     lines.append("RUNFROM %s %s %d %d" % (strategy, vm, debug, FUEL))
+    if three:
+        lines += ["PRED COLLECT NONE", "PRED INV NONE", "PRED GOAL NOEVENTS"]
+        live = [p for p in range(base["nprocs"])
+                if [l for l in base["sys"] if l.startswith("PROC %d " % p)][0].split()[2] not in crashed]
+        if live and rng.random() < 0.7:
+            p = rng.choice(live)
+            node = [l for l in base["sys"] if l.startswith("PROC %d " % p)][0].split()[2]
+            lines.append("CB LOCAL %s %d %s" % (node, p, gen_msg(rng)))
+        lines.append("RUNFROM %s %s %d %d" % (strategy, vm, debug, FUEL))
     return ("MC", sid, lines)
 
 
